@@ -94,7 +94,7 @@ class C18(Harness):
               'thorough': {'token_chars': 3, 'size_max': 9999999, 'extra_entries': 2, 'reject_text_chars': 4}}
     assumptions = ['enumerations: every variant; record components: tokens of 1..n symbolic characters that are not Unicode whitespace; sizes: symbolic integers 0..size_max',
                    'representation ambiguities are avoided, not judged: Forwarded::Yes payload is not "no"/"not-needed"; Origin::Other / AppliedUpstream::Other payloads do not start with "commit:"; BuildProfile::Enabled payload does not start with "!"; PackageListEntry extra keys/values contain no "="; License names contain no LF and Named names are non-empty; key paths contain no LF',
-                   'VCS components are whitespace-free tokens (so a url cannot contain " [" or " -b "); a subpath additionally contains no "]"; brackets inside a url are allowed (IPv6 hosts)',
+                   'VCS components are whitespace-free tokens (so a url cannot contain " [" or " -b "); a subpath additionally contains no "]" and a branch name no "[" (git refuses it in a ref name, and "-b [x]" would be indistinguishable from a subpath); brackets inside a url are allowed (IPv6 hosts)',
                    'rejection clause: every text of up to n characters and of every keyword length of the type: whenever it parses, printing the result gives the text back (or its lower-case form for the case-insensitive Urgency)']
     oracle_leniency = ['Urgency parses case-insensitively; a parsed text may print as its ASCII-lower-case form']
 
@@ -150,7 +150,7 @@ class C18(Harness):
             if e.choose(name + 'some', 2) == 0: return NONE(), None
             s = tok(e, name, n, cond=cond); return SOME(s), s
         if T == 'ParsedVcs':
-            url = tok(e, 'u', max(n, 3) if case.get('wide') else n); b, bj = optional('b'); sp, spj = optional('sp', lambda c: c != 93)
+            url = tok(e, 'u', max(n, 3) if case.get('wide') else n); b, bj = optional('b', lambda c: c != 91); sp, spj = optional('sp', lambda c: c != 93)
             order = src_fields(src, 'struct', 'ParsedVcs'); vals = {'repo_url': url, 'branch': b, 'subpath': sp}
             return Agg('ParsedVcs', [vals[k] for k in order]), {'repo_url': url, 'branch': bj, 'subpath': spj}
         if T == 'Vcs':
@@ -159,7 +159,7 @@ class C18(Harness):
             for f in fields:
                 if f in ('repo_url', 'url', 'root'): vals[f] = url
                 else:
-                    o, oj = optional(f, (lambda c: c != 93) if f == 'subpath' else None); vals[f] = o; j[f] = oj
+                    o, oj = optional(f, (lambda c: c != 93) if f == 'subpath' else ((lambda c: c != 91) if f == 'branch' else None)); vals[f] = o; j[f] = oj
             return EnumV(key, v, [vals[f] for f in fields]), j
         if T == 'Forwarded':
             key, v = enum_choice()
